@@ -173,14 +173,9 @@ func runC08(c *Ctx) {
 				}
 				for _, g := range guards {
 					g := g
-					reach := CanReachFeasible(Entry(fn), isKnob, ReachOpts{CutEdge: func(b *ssa.BasicBlock, k int) bool {
-						if cutIP(b, k) {
-							return true
-						}
-						// one disjunction, so that a predicate helper whose outcome rests on
-						// several of the alternatives is recognised as the guard
-						return EdgeFactMatches(b, k, FOr(g.cut...))
-					}})
+					// one disjunction, so that a predicate helper whose outcome rests on
+					// several of the alternatives is recognised as the guard
+					reach := CanReachFeasibleM(Entry(fn), isKnob, ReachOpts{CutEdge: cutIP}, FOr(g.cut...))
 					c.Ob("R8.2", short+"#guard("+g.desc[:min(24, len(g.desc))]+")", ret.Pos(), !reach && len(knobs) > 0, "hold-back only when "+g.desc, ifs(reach || len(knobs) == 0, "the hold-back store is reachable without that condition (or no store found)"))
 				}
 			}
@@ -210,6 +205,22 @@ func runC08(c *Ctx) {
 					c.Ob("R8.2", short+"#answers-none-after-all", ret.Pos(), !inLoop, "'no matching Rollout' is answered only after every Rollout was examined", ifs(inLoop, "returns (nil, nil) inside the loop: a Rollout listed earlier (e.g. a Disabled one) hides an active one listed later"))
 				}
 			default:
+				// a result variable: judge every value that can reach the return (a nil one is "none")
+				type cand struct {
+					fs []Fact
+				}
+				var cands []cand
+				allNil := true
+				for _, lf := range Leaves(Forwarded(ret.Results[0]), ret.Block()) {
+					if k, isC := lf.V.(*ssa.Const); isC && k.IsNil() {
+						continue
+					}
+					allNil = false
+					cands = append(cands, cand{append(append([]Fact{}, lf.Facts...), fs...)})
+				}
+				if allNil {
+					continue
+				}
 				needs := []need{
 					{"DeletionTimestamp.IsZero() == true", FTrue(MCall("Time.IsZero", MField("DeletionTimestamp")))},
 					{"Status.Phase != Disabled", FCmp("!=", MField("Status", "Phase"), MConst(phaseDisabled))},
@@ -218,9 +229,11 @@ func runC08(c *Ctx) {
 					{"name matches", FCmp("==", MCall("GetName"), MField("Name"))},
 				}
 				var missing []string
-				for _, n := range needs {
-					if !HasFact(fs, n.m) {
-						missing = append(missing, n.desc)
+				for _, cd := range cands {
+					for _, n := range needs {
+						if !HasFact(cd.fs, n.m) {
+							missing = append(missing, n.desc)
+						}
 					}
 				}
 				c.Ob("R8.2", short+"#returns-live-match", ret.Pos(), len(missing) == 0, "the Rollout returned is live, not disabled and references this workload", ifs(len(missing) > 0, "missing: "+strings.Join(missing, "; "))).WithFacts(fs)
